@@ -187,13 +187,17 @@ P_FLEX_REV = (
     (((1, 0), 2), ((0,), 1)),
     (((1,), 1), ((2, 0), 2)),
 )  # machine lists not sorted, 3 machines
+P_FLEX3 = (
+    (((0, 1, 2), 2), ((1,), 1)),
+    (((2, 0), 1), ((0, 1, 2), 2)),
+)  # operations eligible on all three machines
 P_FLEX_3X2 = (
     (((0, 1), 2), ((1,), 1)),
     (((0,), 1), ((0, 1), 2)),
     (((1,), 2), ((0, 1), 1)),
 )
 
-P_SMALL = [P_2X2, P_RECIRC, P_FLEX_UNUSED, P_SINGLE_MACHINE, P_ZERO, P_FLEX_3X2, P_FLEX_REV]
+P_SMALL = [P_2X2, P_RECIRC, P_FLEX_UNUSED, P_SINGLE_MACHINE, P_ZERO, P_FLEX_3X2, P_FLEX_REV, P_FLEX3]
 P_LARGE = [P_EXAMPLE, P_EXAMPLE2, P_IRREGULAR, P_4JOBS, P_SINGLE_JOB]
 P_ALL = P_SMALL + P_LARGE
 
